@@ -222,6 +222,7 @@ func newInterpreter(prog *ssa.Program, cfg *Config) *interpreter {
 		locks:      map[*value]int{},
 		onces:      map[*value]bool{},
 		wgs:        map[*value]int{},
+		egErrs:     map[*value]iface{},
 	}
 	if rt := prog.ImportedPackage("runtime"); rt != nil {
 		i.runtimeErrorString = rt.Type("errorString").Object().Type()
